@@ -249,9 +249,13 @@ def _run(orc, meas, skipped, idx, it, r, progs, mod, k):
                        "expect_positions": [int(v) for v in r["expect_positions"]],
                        "used": sorted({lf["k"] for part in prog.parts for lf in part.cleaves}),
                        "A_poisoned": [[float(z.real), float(z.imag)] for z in A2.astype(complex)]}
-            cid = orc.case(ci, xs, w, c) if use_oracle else None
+            try:
+                cid = orc.case(ci, xs, w, c) if use_oracle else None
+            except OutOfModel as e:
+                skipped.append({"item": idx, "why": f"out of model: {e}"})
+                continue
             meas.append({"case": cid, "item": idx, "tag": extra.get("tag"), "w": w, "c": c, "x": xs,
-                         "needs_perm": bool(getattr(use[0], "needs_facet_permutations", False)) if use else None, "c05": c05, "c_twin": c_twin, "A": [[float(z.real), float(z.imag)] for z in A.astype(complex)],
+                         "needs_perm": bool(getattr(use[0], "needs_facet_permutations", False)) if use else None, "c05": c05, "c_twin": c_twin, "nftab": sum(len(pt.ftabs) for pt in prog.parts), "A": [[float(z.real), float(z.imag)] for z in A.astype(complex)],
                          "scalar": scalar, "nops": nops_of(prog), "itype": prog.itype, "sid": prog.subdomain_id,
                          "ent": ent, "perm": perm, "nkernels": len(use), "descriptor": r.get("descriptor"),
                          "expect_descriptor": _expect_descr(prog, r) if prog.itype == "expression" else None})
